@@ -16,6 +16,7 @@ MODULES += ["lemmas"]
 MODULES += ["generators"]
 MODULES += ["logwriter"]
 MODULES += ["readers"]
+MODULES += ["parse"]
 import os as _os
 if _os.environ.get("PYVC_EXTRA"):
     MODULES += _os.environ["PYVC_EXTRA"].split(",")
